@@ -2,8 +2,10 @@
 """print the prompt for an independent seeding agent: seed_prompt.py Cxx"""
 import json, sys
 pid = sys.argv[1]
+rnd = int(sys.argv[2]) if len(sys.argv) > 2 else 1
+suffix = "" if rnd == 1 else f"-r{rnd}"
 p = [json.loads(l) for l in open('/verif/properties.jsonl') if json.loads(l)['id'] == pid][0]
-wt = f"/tmp/seed-{pid}"
+wt = f"/tmp/seed-{pid}{suffix}"
 print(f"""You are given a git worktree of the Go library TeaEntityLab/fpGo (a generics functional-programming utility library: Maybe, MonadIO, streams/sets, queues, coroutines, actors, a worker pool and a Retrofit-like HTTP helper) at {wt}. You may read and edit files ONLY under {wt} (do not touch /repo, and do not read or list anything under /verif — it is off-limits for this task).
 
 Environment: sealed sandbox, no network. In every shell call first run: export GOFLAGS=-mod=mod GOPROXY=off GOSUMDB=off GOTOOLCHAIN=local   (Go 1.23). If `go` rewrites go.sum, run `git checkout -- go.sum`. Files named verifhook_*.go and the one-line calls verifPoint("...", x) in the sources are inert test instrumentation (no-ops): leave them alone and do not rely on them.
@@ -24,3 +26,10 @@ For each change n in {{1,2}} deliver in {wt}/out/<n>/ :
   - demo_test.go (or demo/main.go) : a demonstration that FAILS with the change applied and PASSES without it (a Go test placed in the package of the changed code, or a small program); say in notes.md exactly where to copy it and how to run it;
   - notes.md : which clause of the property is broken, what is needed for it to manifest (input / sequence / interleaving), how likely the demo is to fail per run if it is schedule-dependent.
 Verify both directions yourself (with patch: existing suite passes and demo fails; without patch: demo passes). When done, leave the worktree's tracked files clean (`git checkout -- .`, remove demo files you copied into source dirs) so that only out/ remains. Your final message: a short summary of the two changes and the verification you ran.""")
+import glob, os
+taken = []
+for m in sorted(glob.glob(f"/verif/seeded/{pid}-*/meta.json")):
+    b = json.load(open(m)).get("breaks", "").strip().replace("\n", " ")
+    taken.append("- " + b[:400])
+if rnd > 1 and taken:
+    print("\nOther people have ALREADY produced the following changes for this property; do NOT repeat these ideas or close variants of them — look for different mechanisms, different functions, different clauses of the statement (re-read the statement: every clause and every item of the quantifier is fair game), and make them harder to notice than these:\n" + "\n".join(taken))
